@@ -985,7 +985,7 @@ def as_operand(x):
             return as_operand(x.item())
         return ("array", SymArr.from_numpy(x))
     if isinstance(x, (list, tuple)):
-        if all(isinstance(e, (numbers.Number, _np.generic)) and not is_sym(e) for e in x) and len(x) > 0:
+        if all(isinstance(e, (numbers.Number, _np.generic)) and not is_sym(e) and not isinstance(e, (SElem, SBV)) for e in x) and len(x) > 0:
             return ("array", SymArr.from_numpy(_np.asarray(x)))
         if len(x) > 0 and all(isinstance(e, (numbers.Number, SInt, SBool, SElem)) for e in x):
             return ("array", from_list(x))
@@ -1108,6 +1108,7 @@ def forall_fact(name, n, body):
     c.assume_forall(name, lambda i: z3.Implies(z3.And(b, 0 <= i, i < nt), body(i)))
     c.assume(z3.Implies(z3.Not(b), z3.And(0 <= w, w < nt, z3.Not(body(w)))))
     c.add_index(w)
+    c.ghost.setdefault("forall_facts", []).append({"name": name, "b": b, "w": w, "n": nt})
     return b
 
 
